@@ -64,6 +64,17 @@ def run(ctx):
     n = 40 if ctx.tier == "quick" else 500
     sysm = []
     sysm += c06.systematic()[::3] + [x for x in c06.systematic() if '%' in json.dumps(x)] + c04.systematic()[::9] + c05.e2e_systematic(ctx)[::7] + c05.e2e_fractional() + [r for r in c08.systematic()[::4]] + [x[0] for x in c09.systematic()[::5]]
+    # keys that are delicate for one of the two decoders (struct-tag syntax, YAML plain scalars): required and optional, with constraints
+    for keys in (["-", "plain"], ["yes", "null", "0"], ["a b", "x:y", "#c", "~t"], ["-", "yes", "a b", "other"]):
+        for req in (True, False):
+            props = {}
+            for i, k in enumerate(keys):
+                props[k] = [{"type": "integer", "minimum": 1, "maximum": 9}, {"type": "string", "minLength": 2}, {"type": "number", "exclusiveMinimum": 0}, {"type": "boolean"}][i % 4]
+            root = {"type": "object", "properties": props}
+            if req:
+                root["required"] = list(keys)
+            sysm.append(root)
+            sysm.append({"type": "object", "properties": {"inner": root, "list": {"type": "array", "items": root}}})
     for s in sysm:
         strip_numeric_enums(s)
     base = build_cases(ctx, len(sysm) + n, None, CLASSES, "c17x", extra_schemas=sysm, docs_per=2,
@@ -72,7 +83,8 @@ def run(ctx):
     for c in base:
         strip_numeric_enums(c.schema)
         docs = [d for d in c.docs if in_scope(c, d)]
-        cj = Case(c.cid + "j", c.schema, copy.deepcopy(docs), extra_imports=True, wire="json", fam=c.fam)
+        dash = '"-"' in json.dumps(c.schema)      # a required key "-" is not bound by either decoder (finding C02-required-dash-key): only the JSON/YAML agreement is judged
+        cj = Case(c.cid + "j", c.schema, copy.deepcopy(docs), extra_imports=True, wire="json", fam=c.fam, no_model=dash)
         cy = Case(c.cid + "y", c.schema, copy.deepcopy(docs), extra_imports=True, wire="yaml", fam=c.fam)
         cases += [cj, cy]
     run_cases(ctx, cases, "c17")
